@@ -56,10 +56,12 @@ theorem all_released (fuel fuel' : Nat) (P : Prog) (s s' : St) (h : runTop fuel 
   exact ⟨hI, hS, hG, hC, hK, hT, liveTotal_nil hS hI, liveCount_nil hS hI⟩
 
 /-
-  Not part of `all_released`, and false of the model: `s'.ownedT = [] ∧ s'.ownedK = []`.
+  Not part of `all_released`, and false of the model: `s'.ownedT = [] ∧ s'.ownedK = [] ∧ s'.ownedG = []`.
   `teardown` runs its operations through `execOp`, which (unlike `execLine` and `emitImpl`) does not run
   `collect`; witness: `owners; newT 0; mkS 0 V ownT:1:0` ends, after teardown, with `ownedT = [1]` although
   no functor holds object 1 any more.  Nothing observable (trace, `final live=`) depends on it.
+  (Likewise a signal object owned by a functor, `ownG:`, is destroyed by the teardown as a named object, `s'.G = []`,
+  while its `ownedG` entry stays; `C06.ownedG_named` is a statement about the states of `runTop`.)
 -/
 
 /-- the same from any quiescent state satisfying the invariants (not only at the end of a program) -/
